@@ -24,15 +24,19 @@ def parseVal (j : Json) : Option Val :=
   | .arr a => (mapM? parseScalar a.toList).map Val.list
   | _ => (parseScalar j).map Val.sc
 
-def parseExpr (j : Json) : Option Expr := do
-  match ← asArr? j with
-  | [.str "lit", v] => pure (.lit (← parseVal v))
-  | [.str "var", .str n] => pure (.var n)
-  | _ => none
+def parseExpr : Nat → Json → Option Expr
+  | 0, _ => none
+  | fuel + 1, j => do
+    match ← asArr? j with
+    | [.str "lit", v] => pure (.lit (← parseVal v))
+    | [.str "var", .str n] => pure (.var n)
+    | [.str "filt", .str f, e] => pure (.filt1 f (← parseExpr fuel e))
+    | [.str "filt", .str f, e, a] => pure (.filt2 f (← parseExpr fuel e) (← parseExpr fuel a))
+    | _ => none
 
 def parseArg (j : Json) : Option (String × Expr) := do
   match ← asArr? j with
-  | [.str k, e] => pure (k, ← parseExpr e)
+  | [.str k, e] => pure (k, ← parseExpr 16 e)
   | _ => none
 
 def parseArgs (j : Json) : Option (List (String × Expr)) := do mapM? parseArg (← asArr? j)
@@ -44,25 +48,28 @@ def parseNode : Nat → Json → Option Node
     let nodes (x : Json) : Option (List Node) := do mapM? (parseNode fuel) (← asArr? x)
     match ← asArr? j with
     | [.str "text", .str s] => pure (.text (textOf s))
-    | [.str "output", e] => pure (.output (← parseExpr e))
-    | [.str "assign", .str n, e] => pure (.assign n (← parseExpr e))
+    | [.str "output", e] => pure (.output (← parseExpr 16 e))
+    | [.str "assign", .str n, e] => pure (.assign n (← parseExpr 16 e))
     | [.str "capture", .str n, b] => pure (.capture n (← nodes b))
     | [.str "ifchanged", b] => pure (.ifchanged (← nodes b))
-    | [.str "cycle", .str g, a] => pure (.cycle (textOf g) (← mapM? parseExpr (← asArr? a)))
-    | [.str "if", e, b, d] => pure (.ifn (← parseExpr e) (← nodes b) (← nodes d))
-    | [.str "for", .str v, e, b, d] => pure (.forn v (← parseExpr e) (← nodes b) (← nodes d))
+    | [.str "cycle", .str g, a] => pure (.cycle (textOf g) (← mapM? (parseExpr 16) (← asArr? a)))
+    | [.str "if", e, b, d] => pure (.ifn (← parseExpr 16 e) (← nodes b) (← nodes d))
+    | [.str "for", .str v, e, b, d] => pure (.forn v (← parseExpr 16 e) (← nodes b) (← nodes d))
+    | [.str "unless", e, b, d] => pure (.unless (← parseExpr 16 e) (← nodes b) (← nodes d))
+    | [.str "with", a, b] => pure (.withn (← parseArgs a) (← nodes b))
+    | [.str "tablerow", .str v, e, b] => pure (.tablerow v (← parseExpr 16 e) (← nodes b))
     | [.str "include", .str n, bind, a] =>
         let b ← match bind with
           | .null => pure none
           | _ => match ← asArr? bind with
-            | [e, .str k, _] => pure (some (← parseExpr e, k))
+            | [e, .str k, _] => pure (some (← parseExpr 16 e, k))
             | _ => none
         pure (.include n b (← parseArgs a))
     | [.str "render", .str n, bind, a] =>
         let b ← match bind with
           | .null => pure none
           | _ => match ← asArr? bind with
-            | [.bool f, e, .str k] => pure (some (f, ← parseExpr e, k))
+            | [.bool f, e, .str k] => pure (some (f, ← parseExpr 16 e, k))
             | _ => none
         pure (.render n b (← parseArgs a))
     | _ => none
@@ -91,13 +98,14 @@ def parseProg (j : Json) : Option Prog := do
       match ← asArr? t with
       | [.str n, v] => pure (n, ← parseVal v)
       | _ => none) (← asArr? (j.getObjValD "globals"))
-  pure { templates := ts, globals := gs, sz := pySizeof }
+  let lax := match j.getObjValD "lax" with | .bool b => b | _ => false
+  pure { templates := ts, globals := gs, sz := pySizeof, filt := pyFilt, lax := lax }
 
 /-- `nsOn`: the namespace limit is truthy, i.e. `get_size_of_locals()` really measures (otherwise it returns 0 and the
 model's log is a ghost) -/
 def resJson (L : Limits) (r : Res) : Json :=
   match r with
-  | .error e => Json.mkObj [("err", jstr e.pyName)]
+  | .error (e, _) => Json.mkObj [("err", jstr e.pyName)]
   | .ok w => Json.mkObj [("ok", jstr (strOf w.buf.text)), ("log", jarr (w.log.map jnat)),
                          ("nsOn", Json.bool (match L.ns with | some (_ + 1) => true | _ => false))]
 
